@@ -120,6 +120,14 @@ class CompiledView:
         f5 = model.func("graph.Graph.run_supervisor")
         ev5 = SymEval(model)
         self.run_supervisor = ev5.run_function(f5)
+        # the call of the update-state closure, with its arguments in parameter order however they were passed
+        us_params = [p.arg for p in model.func("partition_runner.make_update_state._update_state").node.args.args]
+        for e in self.run_supervisor.events:
+            if e.kind == "call" and e.kwargs and "make_update_state" in e.name and len(e.args) + len(e.kwargs) == len(us_params) \
+                    and [k for k, _ in sorted(e.kwargs, key=lambda kv: us_params.index(kv[0]) if kv[0] in us_params else -1)] == us_params[len(e.args):]:
+                kw = dict(e.kwargs)
+                e.args = tuple(e.args) + tuple(kw[p_] for p_ in us_params[len(e.args):])
+                e.kwargs = ()
 
     def _invoke(self, name: str, args) -> Sub:
         n0 = len(self.ev.events)
